@@ -54,7 +54,7 @@ func c09Scenarios(tier string) []*Scenario {
 	take(c05Scenarios(tier), nil, kmax)
 	take(c04Scenarios(tier), nil, kmax)
 	take(c08Scenarios(tier), func(sc *Scenario) bool {
-		return strings.Contains(sc.ID, "-seq-") && (tier == "thorough" || strings.Count(sc.ID, "+") == 0)
+		return strings.Contains(sc.ID, "-seq-") && (tier == "thorough" || strings.Count(sc.ID, "+") == 0 || strings.Contains(sc.ID, "-slowdie-"))
 	}, kmax)
 	take(c10Scenarios(tier), func(sc *Scenario) bool {
 		// probe-induced stops / restarts and the daemon (Launching/Launched) life cycle
